@@ -6,4 +6,5 @@ PROPS = ('C07',)
 # "therefore the one-leader-per-term guarantee also holds across restarts of journaled nodes": two leaders in one
 # term in a schedule with journaled nodes is a C07 record (after a restart of a voter it is attributed to KF-C07-1)
 correspondence, search, replay = R.standard_module('C07', PROPS, {'journal_trace': ('C03',), 'killpoint_trace': ('C03',),
-                                                                  'scenario:vote_regrant_after_flap': ('C03',)})
+                                                                  'scenario:vote_regrant_after_flap': ('C03',),
+                                                                  'scenario:role_hook_raises_on_step_down': ('C01', 'C03', 'C04')})
